@@ -18,6 +18,10 @@ class SshdFamily(Family):
     def __init__(self, prop):
         self.prop = prop
         self.driver_args = ["sshd", prop]
+        if prop == "C19":
+            # one metrics provider and registry across 40 consecutive lines (as in one daemon run),
+            # counters read before and after each line
+            self.harness_mode = ["sshd", "batch=40"]
 
     def harness_line(self, c):
         return G.case_line(c["id"], c, with_form=False)
@@ -108,27 +112,58 @@ class C07Family(SshdFamily):
         self.driver_args = ["c07"]
         self.uses_gen = ("RE", "ProcessEntry", "userTypeLogAuditFn")
 
+    def modes_for(self, c):
+        if c.get("fifo"):
+            return (["c07fifo"], ["c07fifo"])
+        return (self.harness_mode, self.driver_args)
+
     def harness_line(self, c):
+        if c.get("fifo"):
+            f = c["fifo"]
+            return "%s %s %s pauses=%s" % (c["id"], f["ok"], ",".join(hx(x) for x in f["chunks"]), ",".join(str(p) for p in f["pauses"]))
         return "%s %s %s %s %s %s" % (c["id"], hx(c["pid"]), hx(c["pad"]), hx(c["line"]), c["ok"], c["h"])
 
     def driver_line(self, c, impl_obs):
         s = self.harness_line(c)
         if impl_obs is not None:
+            if c.get("fifo"):
+                return s + " obs=" + impl_obs
             parts = impl_obs.split(" ")
             if len(parts) == 2:
                 s += " obs=%s dobs=%s" % (parts[0], parts[1])
         return s
 
-    def impl_obs(self, raw):
-        return raw.split(" ")[0]
+    def impl_obs_for(self, c, raw):
+        return raw if c.get("fifo") else raw.split(" ")[0]
 
     def sample(self, c):
+        if c.get("fifo"):
+            f = c["fifo"]
+            return {"through_real_fifo": True, "records": f["n"], "writes": len(f["chunks"]), "longest_pause_us": max(f["pauses"] or [0]), "write": f["ok"],
+                    "stream": "".join(f["chunks"]).encode("latin-1").decode("utf-8", "replace")[:300]}
         d = SshdFamily.sample(self, c)
         d["padding"] = len(c["pad"])
         return d
 
     def shrink_candidates(self, c):
+        if c.get("fifo"):
+            return []
         return [dict(x, pad=c["pad"]) for x in SshdFamily.shrink_candidates(self, c)]
+
+    def fifo_case(self, rng, recs, slow_us=0):
+        """records framed '<pid><pad><msg>\\n', concatenated and written to a real FIFO in arbitrary pieces
+        (splits inside records), optionally with one long stall of the writer in the middle of a record"""
+        stream = "".join(r["pid"] + r["pad"] + r["line"] + "\n" for r in recs)
+        cuts = sorted({rng.below(len(stream) + 1) for _ in range(rng.below(6))} - {0, len(stream)})
+        chunks = [stream[a:b] for a, b in zip([0] + cuts, cuts + [len(stream)])]
+        pauses = [rng.choice([0, 0, 50, 300, 2000]) for _ in chunks]
+        if slow_us and len(chunks) > 1:
+            pauses[1 + rng.below(len(chunks) - 1)] = slow_us
+        elif slow_us:
+            mid = len(stream) // 2
+            chunks, pauses = [stream[:mid], stream[mid:]], [0, slow_us]
+        return {"fifo": {"chunks": chunks, "pauses": pauses, "ok": "ok" if rng.below(6) else "fail", "n": len(recs)},
+                "pid": "", "pad": "", "line": "", "ok": "ok", "h": "ready", "form": None, "fields": None}
 
     def _prep(self, cs, rng):
         out = []
@@ -144,7 +179,17 @@ class C07Family(SshdFamily):
         self.rule = "every message form and malformed line, once directly and once framed '<pid><pad><msg>\\n' through SyslogIngester.Process; non-trivial = the direct call produced an event"
         cs = G.form_cases(rng, 5000 * n, adversarial_every=3, oks=("ok", "ok", "fail"), hands=("ready", "ready", "cancel"), pids=G.PIDS_OK + ["0", "-5", "abc"])
         cs += G.malformed_cases(rng, 2000 * n)
-        return self._prep(cs, rng)
+        cs = self._prep(cs, rng)
+        # the same records delivered through a real FIFO to SyslogIngester.Ingest, in arbitrary pieces
+        pool = [c for c in cs if "\r" not in c["line"]]
+        fifo = []
+        for i in range(300 * n):
+            k = 1 + rng.below(6)
+            fifo.append(self.fifo_case(rng, [rng.choice(pool) for _ in range(k)]))
+        for slow in ([600000, 1200000] if tier == "quick" else [300000, 600000, 1200000, 2500000] * 2):
+            fifo.append(self.fifo_case(rng, [rng.choice(pool) for _ in range(2)], slow_us=slow))
+        self.rule += "; plus 1-6 framed records written to a real FIFO in arbitrary pieces (splits inside records, pauses), incl. a writer that stalls 0.6-2.5 s in the middle of a record, read by SyslogIngester.Ingest"
+        return cs + fifo
 
     def extra_cases(self, rng, n):
         return self._prep(G.form_cases(rng, n, adversarial_every=2) , rng)
